@@ -26,6 +26,7 @@ const (
 	gkSlice                // []T                                                              -> list T
 	gkTuple                // multiple results
 	gkUnit                 // no value
+	gkErr                  // error: only nil / non-nil is kept                              -> bool (true = an error)
 )
 
 type gtT struct {
@@ -75,6 +76,7 @@ var (
 	gtStr  = &gtT{k: gkStr}
 	gtTime = &gtT{k: gkTime}
 	gtUnit = &gtT{k: gkUnit}
+	gtErrT = &gtT{k: gkErr}
 )
 
 func (t *gtT) isInt() bool { return t.k == gkI64 || t.k == gkI32 || t.k == gkU64 }
@@ -121,11 +123,11 @@ type gotrans struct {
 	byObj   map[types.Object]*gtFn // whitelisted functions by their types.Func
 	final   bool
 	cur     *gtPkgCtx
-	opaques map[string]map[string]bool // module -> opaque type names used
+	globals map[string]bool // names of generated top level definitions
 }
 
 func newGotrans(l *gtLoader) *gotrans {
-	return &gotrans{l: l, recs: map[*types.Named]*gtRec{}, byObj: map[types.Object]*gtFn{}, opaques: map[string]map[string]bool{}}
+	return &gotrans{l: l, recs: map[*types.Named]*gtRec{}, byObj: map[types.Object]*gtFn{}, globals: map[string]bool{}}
 }
 
 // moduleOf returns the Coq module a repository package is translated into ("" if not whitelisted).
@@ -171,6 +173,9 @@ func (tr *gotrans) typeOf(t types.Type) *gtT {
 		gtFail("basic type %s is outside the subset", x.String())
 	case *types.Named:
 		obj := x.Obj()
+		if obj.Pkg() == nil && obj.Name() == "error" {
+			return gtErrT
+		}
 		if obj.Pkg() != nil && obj.Pkg().Path() == "time" {
 			switch obj.Name() {
 			case "Time":
@@ -234,6 +239,7 @@ func (tr *gotrans) recOf(n *types.Named, st *types.Struct) *gtRec {
 		gtFail("struct %s.%s belongs to a package that is not translated", n.Obj().Pkg().Name(), n.Obj().Name())
 	}
 	r := &gtRec{named: n, name: n.Obj().Name(), module: mod, st: st, used: map[int]bool{}}
+	tr.globals[r.name] = true
 	tr.recs[n] = r
 	tr.recList = append(tr.recList, r)
 	return r
@@ -243,7 +249,7 @@ func (tr *gotrans) recOf(n *types.Named, st *types.Struct) *gtRec {
 func (tr *gotrans) useField(r *gtRec, v *types.Var) (int, *gtT) {
 	for i := 0; i < r.st.NumFields(); i++ {
 		if r.st.Field(i) == v {
-			ft := tr.typeOf(v.Type())
+			ft := tr.fieldType(r, v)
 			if !r.used[i] {
 				if r.frozen {
 					gtFail("internal: field %s.%s first used in pass 2", r.name, v.Name())
@@ -255,6 +261,17 @@ func (tr *gotrans) useField(r *gtRec, v *types.Var) (int, *gtT) {
 	}
 	gtFail("field %s is not a direct field of struct %s (embedded/promoted fields are outside the subset)", v.Name(), r.name)
 	return 0, nil
+}
+
+// fieldType: the type of a struct field. A pointer to the struct itself (Queue.parent) is an opaque
+// pointer: it can be compared with nil and passed on, but not dereferenced (no recursive records).
+func (tr *gotrans) fieldType(r *gtRec, v *types.Var) *gtT {
+	if pt, ok := v.Type().(*types.Pointer); ok {
+		if n, ok := pt.Elem().(*types.Named); ok && n.Origin() == r.named {
+			return &gtT{k: gkPtr, elem: &gtT{k: gkOpaque, name: "self_" + r.name}}
+		}
+	}
+	return tr.typeOf(v.Type())
 }
 
 // qual prefixes a name of module mod when used from another module.
@@ -271,7 +288,7 @@ func (tr *gotrans) coqType(t *gtT) string {
 		return "Z"
 	case gkU64, gkStr, gkOpaque:
 		return "N"
-	case gkBool:
+	case gkBool, gkErr:
 		return "bool"
 	case gkF64:
 		return "f64"
@@ -302,14 +319,14 @@ func (tr *gotrans) zero(t *gtT) string {
 		return "0"
 	case gkU64:
 		return "0%N"
-	case gkBool:
+	case gkBool, gkErr:
 		return "false"
 	case gkF64:
 		return "f_zero"
 	case gkPtr:
-		return "None"
+		return "(None : " + tr.coqType(t) + ")"
 	case gkMap, gkSlice:
-		return "[]"
+		return "([] : " + tr.coqType(t) + ")"
 	}
 	gtFail("zero value of this type is outside the subset")
 	return ""
